@@ -286,3 +286,14 @@ fn c17_seq_two_unions_transitive() {
     }
     kani::cover!(before[4] != before[2] && before[2] != before[3] && before[4] != before[3], "witness: three classes merged");
 }
+
+// ---- cfg(kani)-only constructor used by the core-relations / bridge harnesses ----
+impl<V> super::UnionFind<V> {
+    /// Build a union-find directly from a parent vector (verification only).
+    pub fn kani_from_parents(parents: Vec<V>) -> Self {
+        super::UnionFind { parents }
+    }
+    pub fn kani_parents(&self) -> &[V] {
+        &self.parents
+    }
+}
